@@ -141,6 +141,13 @@ func RunReplay(f func()) (violated bool, what string) {
 	return false, ""
 }
 
+// Thread, Event, CheckHB: happens-before analysis of a wait/signal pipeline (engine intercepts; natively no-ops).
+// Thread(id>0) names the analysis thread executing from here on (0 = setup/teardown code, not analysed).
+// Event(kind, row, n): kind 0 = wait until progress(row) >= n, kind 1 = publish progress(row) = n.
+func Thread(id int)             {}
+func Event(kind, row, n int)    {}
+func CheckHB(what string)       {}
+
 // SameExcept reports whether *a and *b (pointers to the same struct type) hold the same state:
 // all fields except the named top-level ones are compared cell by cell (slices by length and
 // contents, pointers by nil-ness and pointee contents).
